@@ -1442,23 +1442,31 @@ def jno(info, a, b):
     e.append(ExprAff(eip, ExprCond(of, a, b)))
     return e
 
+def count_reg(info):
+    # with an address-size prefix the count register of jcxz/loop* is cx
+    if info.admode == x86_afs.u16:
+        return ecx[0:16]
+    return ecx
+
 def jecxz(info, a, b):
     e= []
-    e.append(ExprAff(eip, ExprCond(ecx, a, b)))
+    e.append(ExprAff(eip, ExprCond(count_reg(info), a, b)))
     return e
 
 
 def loop(info, a, b):
     e= []
-    c = ExprOp('-', ecx, ExprInt32(1))
-    e.append(ExprAff(ecx, c))
+    cnt = count_reg(info)
+    c = ExprOp('-', cnt, ExprInt_from(cnt, 1))
+    e.append(ExprAff(cnt, c))
     e.append(ExprAff(eip, ExprCond(c, b, a)))
     return e
 
 def loopne(info, a, b):
     e= []
-    c = ExprOp('-', ecx, ExprInt32(1))
-    e.append(ExprAff(ecx, c))
+    cnt = count_reg(info)
+    c = ExprOp('-', cnt, ExprInt_from(cnt, 1))
+    e.append(ExprAff(cnt, c))
 
     cond = ExprOp('|',
                   ExprCond(c, ExprInt_from(c, 0), ExprInt_from(c, 1)),
@@ -1470,8 +1478,9 @@ def loopne(info, a, b):
 
 def loope(info, a, b):
     e= []
-    c = ExprOp('-', ecx, ExprInt32(1))
-    e.append(ExprAff(ecx, c))
+    cnt = count_reg(info)
+    c = ExprOp('-', cnt, ExprInt_from(cnt, 1))
+    e.append(ExprAff(cnt, c))
 
     cond = ExprOp('|',
                   ExprCond(c, ExprInt_from(c, 0), ExprInt_from(c, 1)),
